@@ -16,6 +16,9 @@ Streams (model = coq/Run/ThashRun.v over coq/Thash/*.v + Gen/Precomputed.v, Gen/
 Oracles (the property itself, independent of the Coq model):
   * Python (hashlib) recursive tree hash over the script / over an independent Python deserializer,
     compared with every hash the implementation printed
+  * harness op thash.ohelper: every `X::curry_tree_hash` of chia-puzzle-types (set pinned by translator/gen_curryhelpers.py)
+    against tree_hash / tree_hash_cached / tree_hash_from_bytes / reference hash of the ACTUAL curried program
+    (real module bytes, args = X::new(same pairwise distinct arguments))
   * harness ops thash.oracle / thash.ocurry: every routine on every node against an independent
     recursive hash inside the harness, including the real CurriedProgram::to_clvm tree and TreeHasher
 """
@@ -25,7 +28,7 @@ import common as C
 from run import diff_stream
 
 UNIT = "thash"
-GEN = ["precomputed"]
+GEN = ["precomputed", "curryhelpers"]
 RULE = ("scripts: every small atom 0..40 and every 2^k-1,2^k,2^k+1 below 2^27 in small-atom / new_atom / byte-heap form; "
         "tree shapes deep-left, deep-right, balanced, random DAG, doubling DAG (expanded size up to 2^60), shared-module "
         "spend lists; cache histories: pre-visit all then hash all, interleaved visit/hash/get/should_memoize/reset with "
@@ -315,10 +318,10 @@ SHAPES = ["atoms", "deep_r", "deep_l", "balanced", "doubling", "spends", "random
 def gen_script(rng, tier, shape=None, hlimit=1500):
     s = Script()
     shape = shape or rng.choice(SHAPES)
-    big = 40 if tier == "quick" else 100
+    big = 40 if tier == "quick" else 70
     budget = 3 + rng.below(big)
     if shape in ("deep_r", "deep_l") and rng.chance(1, 5):
-        budget = 100 + rng.below(200) if tier == "quick" else 400 + rng.below(1200)
+        budget = 100 + rng.below(200) if tier == "quick" else 300 + rng.below(600)
     if shape == "doubling":
         budget = 2 + rng.below(58)
     roots = build_shape(s, rng, shape, budget)
@@ -527,35 +530,133 @@ def plain_ser_tree(rng, depth):
     return b"\xff" + plain_ser_tree(rng, depth - 1) + plain_ser_tree(rng, depth - 1)
 
 
-# ------------------------------------------------------------------ the check
-def run_batched(binary, lines, batch, timeout):
-    """run in batches so that one shard process never has more than batch/16 cases; lines whose shard hit the
-    timeout are re-run once in small batches with a longer limit"""
-    out = []
-    for i in range(0, len(lines), batch):
-        out += C.run_lines(binary, lines[i:i + batch], timeout=timeout)
-    late = [i for i, o in enumerate(out) if o == "TIMEOUT"]
-    if late:
-        redo = C.run_lines(binary, [lines[i] for i in late], timeout=timeout)
-        for i, o in zip(late, redo):
-            out[i] = o
+
+# ------------------------------------------------------------------ hash-only currying helpers of chia-puzzle-types
+def distinct_trees(rng, n):
+    seen, out = set(), []
+    while len(out) < n:
+        t = plain_ser_tree(rng, 1 + rng.below(3)).hex()
+        if t not in seen:
+            seen.add(t)
+            out.append(t)
     return out
 
 
+def distinct_ints(rng, n, hi):
+    seen = []
+    while len(seen) < n:
+        v = rng.choice([0, 1, 2, 3, 5, 7, 10, 100, 127, 128, 255, 256, 300, 1000, 10000, 32767, 32768, 65535]) if rng.chance(1, 2) else rng.below(hi)
+        if v < hi and v not in seen:
+            seen.append(v)
+    return seen
+
+
+def opt32(rng):
+    return rng.bytes(32).hex() if rng.chance(3, 4) else "none"
+
+
+# one generator per helper; all arguments of a case are pairwise distinct so that a transposition changes the result
+HELPERS = {
+    "StandardArgs": lambda r: [r.bytes(32).hex()],
+    "EverythingWithSignatureTailArgs": lambda r: [r.bytes(32).hex()],
+    "GenesisByCoinIdTailArgs": lambda r: [r.bytes(32).hex()],
+    "CatArgs": lambda r: [r.bytes(32).hex()] + distinct_trees(r, 1),
+    "SingletonArgs": lambda r: [r.bytes(32).hex()] + distinct_trees(r, 1),
+    "DidArgs": lambda r: (lambda t: [t[0], opt32(r), str(distinct_ints(r, 1, 1 << 40)[0]), r.bytes(32).hex(), r.bytes(32).hex(),
+                                     r.bytes(32).hex(), t[1]])(distinct_trees(r, 2)),
+    "NftIntermediateLauncherArgs": lambda r: [str(v) for v in distinct_ints(r, 2, 1 << 20)],
+    "NftStateLayerArgs": lambda r: distinct_trees(r, 2),
+    "NftOwnershipLayerArgs": lambda r: [opt32(r)] + distinct_trees(r, 2),
+    "NftRoyaltyTransferPuzzleArgs": lambda r: [r.bytes(32).hex(), r.bytes(32).hex(), str(distinct_ints(r, 1, 1 << 16)[0])],
+}
+
+
+def helper_lines(rep, rng, per_helper):
+    """one block of cases per `pub fn curry_tree_hash` found in the source NOW (translator scan): a helper
+    without a generator here is reported, so a new helper cannot stay unchecked"""
+    names = sorted(HELPERS)
+    try:
+        sys.path.insert(0, C.VERIF + "/translator")
+        import gen_curryhelpers
+        names = sorted(gen_curryhelpers.scan(C.REPO))
+    except Exception as e:        # the translator step reports the broken tie; keep checking what we know
+        rep.notes.append("curry helper scan failed: %r" % (e,))
+    lines = []
+    for n in names:
+        if n not in HELPERS:
+            rep.add_broken("oracle-coverage", "%s::curry_tree_hash" % n, "no thash.ohelper case generator for this helper")
+            continue
+        for _ in range(per_helper):
+            lines.append("thash.ohelper %s %s" % (n, " ".join(HELPERS[n](rng))))
+    return lines
+
+# ------------------------------------------------------------------ the check
+def run_side(binary, lines, timeout):
+    """C.run_lines cuts the list into consecutive chunks of equal length; the cases are handed over in a fixed
+    pseudo-random order so that every chunk gets its share of the few expensive ones (deep chains, long inputs).
+    C.run_lines itself re-runs every line of a timed-out chunk alone, with the same limit."""
+    order = list(range(len(lines)))
+    C.SplitMix64(0x5eed + len(lines)).shuffle(order)
+    res = C.run_lines(binary, [lines[i] for i in order], timeout=timeout)
+    out = [None] * len(lines)
+    for i, o in zip(order, res):
+        out[i] = o
+    return out
+
+
+def unchecked(rep, stream, n):
+    """cases the machine did not finish in time: recorded in the evidence, never a verdict"""
+    u = rep.extra.setdefault("unchecked_timeout", {})
+    u[stream] = u.get(stream, 0) + n
+
+
+def limits(ctx):
+    """(per-chunk limit, limit for the confirmation re-run of a single line)"""
+    return (900, 600) if ctx["tier"] == "thorough" else (400, 300)
+
+
 def both(ctx, lines):
-    thorough = ctx["tier"] == "thorough"
-    batch, timeout = (1600, 2400) if thorough else (4000, 400)
-    impl = run_batched(C.VH(UNIT), lines, batch, timeout)
-    model = run_batched(C.VRUN(UNIT), lines, batch, timeout) if ctx["have_model"] else None
-    # a case the machine could not finish in time is not a disagreement: it is reported as unchecked
-    if model is not None:
-        late = [i for i, (a, b) in enumerate(zip(impl, model)) if a == "TIMEOUT" or b == "TIMEOUT"]
-        if late:
-            ctx["rep"].add_broken("timeout", lines[late[0]].split(" ")[0],
-                                  "%d cases not finished within the time limit (machine overloaded?)" % len(late))
-            for i in late:
-                impl[i] = model[i] = "UNCHECKED-TIMEOUT"
+    """implementation and model outputs.  A case that one side did not finish within the limit (even when re-run
+    alone by C.run_lines) is NOT a disagreement: an overloaded machine must not produce a verdict.  It is marked
+    UNCHECKED-TIMEOUT on both sides and counted in the evidence.  Only an asymmetry that persists - the other side
+    answered, and the line times out once more when it is re-run alone, nothing else of this check running - is
+    reported, as a broken correspondence (at most two lines are re-tried, the shortest first)."""
+    rep = ctx["rep"]
+    timeout, confirm = limits(ctx)
+    impl = run_side(C.VH(UNIT), lines, timeout)
+    model = run_side(C.VRUN(UNIT), lines, timeout) if ctx["have_model"] else None
+    if model is None:
+        for i, o in enumerate(impl):
+            if o == "TIMEOUT":
+                impl[i] = "UNCHECKED-TIMEOUT"
+        return impl, None
+    stream = lines[0].split(" ")[0] if lines else "?"
+    for side, mine, other, binary in (("model", model, impl, C.VRUN(UNIT)), ("implementation", impl, model, C.VH(UNIT))):
+        late = sorted([i for i in range(len(lines)) if mine[i] == "TIMEOUT" and other[i] != "TIMEOUT"],
+                      key=lambda i: len(lines[i]))
+        for i in late[:2]:
+            again = C.run_lines(binary, [lines[i]], timeout=confirm)[0]
+            if again == "TIMEOUT":
+                rep.add_broken("correspondence", "%s (%s does not finish)" % (stream, side),
+                               json.dumps({"case": lines[i][:3000], "other_side_answered": other[i][:200],
+                                           "limit_s_alone": confirm, "lines_affected": len(late)}))
+                break
+            mine[i] = again
+    late = [i for i in range(len(lines)) if impl[i] == "TIMEOUT" or model[i] == "TIMEOUT"]
+    if late:
+        unchecked(rep, stream, len(late))
+        for i in late:
+            impl[i] = model[i] = "UNCHECKED-TIMEOUT"
     return impl, model
+
+
+def impl_only(ctx, lines):
+    """implementation-level oracle ops: a timeout is unchecked, not a failure"""
+    out = run_side(C.VH(UNIT), lines, limits(ctx)[0])
+    n = out.count("TIMEOUT")
+    if n:
+        unchecked(ctx["rep"], lines[0].split(" ")[0], n)
+    return ["UNCHECKED-TIMEOUT" if o == "TIMEOUT" else o for o in out]
 
 
 def bucket(n):
@@ -574,7 +675,7 @@ def run(ctx):
             return
         line = fi["case"]
         name = line.split(" ")[0]
-        if name in ("thash.oracle", "thash.ocurry"):
+        if name in ("thash.oracle", "thash.ocurry", "thash.ohelper"):
             out = C.run_lines(C.VH(UNIT), [line])[0]
             if not out.startswith("OK"):
                 rep.add_failure(name, line, out, "OK", "implementation-level oracle: a routine disagrees with the independent tree hash")
@@ -609,9 +710,9 @@ def run(ctx):
         s.op("C", q)
         s.op("G", q)
         scripts.append((s, "small-atoms", {"H", "C", "G"}))
-    n_rand = 160 if not thorough else 1500
+    n_rand = 160 if not thorough else 700
     for _ in range(n_rand):
-        s, shape, used, _ = gen_script(r1, tier, hlimit=600 if not thorough else 4000)
+        s, shape, used, _ = gen_script(r1, tier, hlimit=600 if not thorough else 2000)
         scripts.append((s, shape, used))
     lines = [s.line() for s, _, _ in scripts]
     impl, model = both(ctx, lines)
@@ -633,11 +734,9 @@ def run(ctx):
                                                     "max_expanded_size_log2": max(bucket(m[2]) for m in meta.values())})
 
     olines = [s.line("thash.oracle") for s, _, _ in scripts]
-    oout = run_batched(C.VH(UNIT), olines, 4000, 2400 if thorough else 400)
-    if "TIMEOUT" in oout:
-        rep.add_broken("timeout", "thash.oracle", "%d cases not finished within the time limit" % oout.count("TIMEOUT"))
+    oout = impl_only(ctx, olines)
     for l, o in zip(olines, oout):
-        if not o.startswith("OK") and o != "TIMEOUT":
+        if not o.startswith("OK") and o != "UNCHECKED-TIMEOUT":
             rep.add_failure("thash.oracle", l, o, "OK", "implementation-level oracle: a routine disagrees with the independent tree hash")
     rep.streams["thash.oracle"] = {"cases": len(olines), "routine_checks": sum(int(o.split(" ")[1]) for o in oout if o.startswith("OK "))}
     rep.evaluations += len(olines)
@@ -645,7 +744,7 @@ def run(ctx):
     # ---------------- stream thash.fb
     r2 = rng.fork("fb")
     fb = []      # (line, kind)
-    ser_scripts = [s for s, shape, _ in scripts if s.ispair and s.ispair[-1]][: (150 if not thorough else 2500)]
+    ser_scripts = [s for s, shape, _ in scripts if s.ispair and s.ispair[-1]][: (150 if not thorough else 700)]
     for extra_shape in ("doubling", "spends", "random", "deep_r"):
         for _ in range(6 if not thorough else 60):
             s = Script()
@@ -656,21 +755,20 @@ def run(ctx):
         # serialize the last created node: strip the ops, keep the allocations
         toks = [t for t in s.toks if t[0] in "sabp"]
         slines.append("thash.ser " + " ".join(toks))
-    souts = run_batched(C.VH(UNIT), slines, 4000, 2400 if thorough else 400)
+    souts = impl_only(ctx, slines)
     for s, so in zip(ser_scripts, souts):
         parts = so.split(" ")
-        if so == "TIMEOUT":
-            rep.add_broken("timeout", "thash.ser", "serialization helper did not finish within the time limit")
+        if so == "UNCHECKED-TIMEOUT":
             continue
         if len(parts) != 2:
             rep.add_broken("harness", "thash.ser", so)
             continue
         want = s.want[-1].hex()
-        plain_limit = 600 if not thorough else 4000
+        plain_limit = 600 if not thorough else 2000
         if parts[0] != "-" and s.size[-1] <= plain_limit:
             fb.append(("thash.fb " + parts[0], "clvmr-plain", want))
         fb.append(("thash.fb " + parts[1], "clvmr-backrefs", want))
-    for _ in range(250 if not thorough else 4000):
+    for _ in range(250 if not thorough else 2000):
         bs = gen_br_stream(r2, 3 + r2.below(60), bad_paths=r2.chance(1, 3))
         fb.append(("thash.fb " + hexo(bs), "py-backrefs", None))
         if r2.chance(1, 3) and len(bs) > 1:
@@ -755,12 +853,24 @@ def run(ctx):
             continue
         toks = [t for t in s.toks if t[0] in "sabp"]
         oc.append("thash.ocurry " + " ".join(toks) + " | " + " ".join(str(i) for i in idx))
-    oo = C.run_lines(C.VH(UNIT), oc)
+    oo = impl_only(ctx, oc)
     for l, o in zip(oc, oo):
-        if o != "OK":
+        if o != "OK" and o != "UNCHECKED-TIMEOUT":
             rep.add_failure("thash.ocurry", l, o, "OK", "implementation-level oracle: hash of the real curried program differs")
     rep.streams["thash.ocurry"] = {"cases": len(oc)}
     rep.evaluations += len(oc)
+
+    # ---------------- oracle thash.ohelper: every X::curry_tree_hash against the actual curried program
+    hl = helper_lines(rep, rng.fork("helpers"), 6 if not thorough else 60)
+    ho = impl_only(ctx, hl)
+    for l, o in zip(hl, ho):
+        if o != "OK" and o != "UNCHECKED-TIMEOUT":
+            rep.add_failure("thash.ohelper", l, o, "OK",
+                            "a hash-only currying helper differs from the tree hash of the actual curried program "
+                            "(real module, args = X::new(same arguments))")
+        rep.nontrivial.add(("thash.ohelper", l.split(" ")[1]))
+    rep.streams["thash.ohelper"] = {"cases": len(hl), "helpers": sorted(set(l.split(" ")[1] for l in hl))}
+    rep.evaluations += len(hl)
 
     # ---------------- stream thash.ff
     r4 = rng.fork("ff")
